@@ -110,8 +110,9 @@ def _run(prop, tier, seed, n_hist, budget, batch, workers, evidence_path, t0, ev
     else:
         targets = [(c, "sites", 0) for c in primary for _ in range(12)] + [(c, "sites", 0) for c in secondary for _ in range(3)] \
             + [(c, "all", 6000) for c in primary for _ in range(2)]
+    sweep_master = random.Random(seed ^ 0x5EEDF00D)   # its own stream: sweep seeds do not depend on the number of histories
     for (c, mode, cap) in targets:
-        sweep_jobs.append({"prop": prop, "tier": tier, "run_seed": master.randrange(1 << 48), "target_cls": c, "mode": mode,
+        sweep_jobs.append({"prop": prop, "tier": tier, "run_seed": sweep_master.randrange(1 << 48), "target_cls": c, "mode": mode,
                            "cap": cap, "minimise_s": 45 if tier == "quick" else 120})
     if os.environ.get("VERIF_NO_SWEEPS"):
         sweep_jobs = []
